@@ -13,7 +13,8 @@ import (
 // RefTx is the reference model's view of one log entry.
 type RefTx struct {
 	Index    int
-	Rollback int // >0: this entry rolls back that index
+	IsRollback bool
+	Rollback   int // the index a rollback entry asks to roll back
 	Ops      []model.Op
 	Targets  []string
 	// Outcome: "committed" (merged into every target), "invalid" (model
@@ -22,6 +23,7 @@ type RefTx struct {
 	// Refused lists the targets whose device refuses the change, with the code.
 	Refused map[string]codes.Code
 	before  map[string]model.Config
+	after   map[string]model.Config
 	prevIdx map[string]int
 }
 
@@ -85,7 +87,7 @@ func refusalOf(ops []model.Op) codes.Code {
 // paths) that the northbound handler ACCEPTED INTO THE LOG, and returns the
 // entry with its predicted outcome.
 func (r *Ref) Change(ops []model.Op) *RefTx {
-	tx := &RefTx{Index: len(r.Txs) + 1, Ops: ops, Targets: targetsOf(ops), Refused: map[string]codes.Code{}, before: map[string]model.Config{}, prevIdx: map[string]int{}}
+	tx := &RefTx{Index: len(r.Txs) + 1, Ops: ops, Targets: targetsOf(ops), Refused: map[string]codes.Code{}, before: map[string]model.Config{}, after: map[string]model.Config{}, prevIdx: map[string]int{}}
 	r.Txs = append(r.Txs, tx)
 	cands := map[string]model.Config{}
 	ok := true
@@ -104,6 +106,7 @@ func (r *Ref) Change(ops []model.Op) *RefTx {
 	tx.Outcome = "committed"
 	for _, t := range tx.Targets {
 		tx.before[t] = r.Stored[t]
+		tx.after[t] = cands[t]
 		tx.prevIdx[t] = r.CurIndex[t]
 		r.Stored[t] = cands[t]
 		r.CurIndex[t] = tx.Index
@@ -120,14 +123,14 @@ func (r *Ref) Change(ops []model.Op) *RefTx {
 
 // RollbackOf appends a rollback of log index idx and predicts its outcome.
 func (r *Ref) RollbackOf(idx int) *RefTx {
-	tx := &RefTx{Index: len(r.Txs) + 1, Rollback: idx, Refused: map[string]codes.Code{}}
+	tx := &RefTx{Index: len(r.Txs) + 1, IsRollback: true, Rollback: idx, Refused: map[string]codes.Code{}}
 	r.Txs = append(r.Txs, tx)
 	if idx < 1 || idx >= tx.Index {
 		tx.Outcome = "notfound"
 		return tx
 	}
 	tgt := r.Txs[idx-1]
-	if tgt.Rollback != 0 {
+	if tgt.IsRollback {
 		tx.Outcome = "forbidden"
 		return tx
 	}
@@ -140,22 +143,35 @@ func (r *Ref) RollbackOf(idx int) *RefTx {
 	}
 	tx.Outcome = "committed"
 	for _, t := range tgt.Targets {
-		// the device is taken back by sending the displaced values: the leaves
-		// the change wrote or removed go back to what they were; like any other
-		// change this one can be refused by the device
-		after := r.Stored[t]
+		// A rollback puts every leaf the change wrote or removed back to what it
+		// was immediately before the change, in the stored configuration and (by
+		// sending those values) on the device; like any other change this one can
+		// be refused by the device. Leaves the change did not touch stay as they are.
+		after := tgt.after[t]
 		before := tgt.before[t]
 		var rb []model.Op
-		for k, l := range after {
-			if _, was := before[k]; !was {
-				rb = append(rb, model.Op{Kind: "delete", Target: t, Path: l.Path})
+		touched := map[string]model.Path{}
+		for _, o := range opsFor(tgt.Ops, t) {
+			if o.Kind != "delete" {
+				touched[o.Path.String()] = o.Path
 			}
-			_ = k
 		}
 		for k, l := range before {
-			if al, is := after[k]; !is || al.Value.Key() != l.Value.Key() {
+			if _, is := after[k]; !is {
+				touched[k] = l.Path
+			}
+		}
+		keys := make([]string, 0, len(touched))
+		for k := range touched {
+			keys = append(keys, k)
+		}
+		sort.Strings(keys)
+		for _, k := range keys {
+			if l, was := before[k]; was {
 				v := l.Value
 				rb = append(rb, model.Op{Kind: "update", Target: t, Path: l.Path, Val: &v})
+			} else {
+				rb = append(rb, model.Op{Kind: "delete", Target: t, Path: touched[k]})
 			}
 		}
 		if c := refusalOf(rb); c != codes.OK {
@@ -165,7 +181,9 @@ func (r *Ref) RollbackOf(idx int) *RefTx {
 			d.Apply(rb, nil)
 			r.Device[t] = d
 		}
-		r.Stored[t] = before
+		st := r.Stored[t].Clone()
+		st.Apply(rb, nil)
+		r.Stored[t] = st
 		r.CurIndex[t] = tgt.prevIdx[t]
 	}
 	return tx
